@@ -75,7 +75,7 @@ Qed.
 
 (* the retry bound of the modelled ensureSwitchState (n > 3 => broken, n reset to 0) is the code's: the integer
    literals of States.ensureSwitchState, regenerated from the Go source on every run *)
-Theorem C09_retry_limit_is_code : Gen.C09.ensure_switch_ints = [0; 3]%Z.
+Theorem C09_retry_limit_is_code : Gen.C09.ensure_switch_ints = [3]%Z.
 Proof. reflexivity. Qed.
 
 (* ---- non-vacuity *)
